@@ -326,6 +326,9 @@ def geo_ids(inst):
     r = random.Random(inst['shuffle_seed'])
     ids = r.sample(range(1, 40), n)
     return ids
+  if inst['ids_kind'] == 'int_twin':
+    # the first and the last geo are twins (identical series); as integers 9 < 10, as strings '10' < '9'
+    return [9] + list(range(21, 21 + n - 2)) + [10]
   if inst['ids_kind'] == 'str':
     return ['geo_%s' % chr(ord('a') + (7 * g) % 26) + str(g) for g in range(1, n + 1)]
   return ['%d' % (100 - g) for g in range(1, n + 1)]
